@@ -595,6 +595,10 @@ def _preempt(name, run, files, params, budget=None, **kw):
 SPECS["C06"]["parts"].append(_preempt("reuse-preempt", "TestVerifC06", ["zz_verif_c06_test.go"],
                                       {"quick": {"PAUSE": 1, "DEPTH": 4, "FAULTS": 1, "CALLS": 2}, "thorough": {"PAUSE": 1, "PAUSEHITS": 2, "DEPTH": 6, "FAULTS": 2, "CALLS": 3}}))
 
+# the one-at-a-time transport's exploration (with callers whose deadline has already passed) decides C14's deadline clause as well
+SPECS["C14"]["parts"].append(_preempt("reuse-preempt", "TestVerifC06", ["zz_verif_c06_test.go"],
+                                      {"quick": {"PAUSE": 1, "DEPTH": 4, "FAULTS": 1, "CALLS": 2}, "thorough": {"PAUSE": 1, "PAUSEHITS": 2, "DEPTH": 6, "FAULTS": 2, "CALLS": 3}}))
+
 SPECS["C05"]["parts"].append(_preempt("pipeline-preempt", "TestVerifC05", ["zz_verif_c05_test.go"],
                                       {"quick": {"PAUSE": 1, "DEPTH": 5, "FAULTS": 1, "CALLS": 3}, "thorough": {"PAUSE": 1, "PAUSEHITS": 2, "DEPTH": 6, "FAULTS": 2, "CALLS": 3}}))
 
@@ -635,6 +639,12 @@ def _request_path(pause):
 
 for _pid in ("C04", "C12", "C20"):
     SPECS[_pid]["parts"].append(_request_path(True))
+
+# the DoQ listener's accept loop and stream handlers under pause points: overlapping streams of one connection
+SPECS["C03"]["parts"].append(router_part("doq-overlap-preempt", "TestVerifC03QuicOverlap", ["zz_verif_c03_test.go"], engines=E4ENGINES,
+                                         generate=instrument(["app/router/server_quic.go", "app/router/router.go", "app/router/context.go", "app/router/server_utils.go"]),
+                                         params={"quick": {"PAUSE": 1, "PAUSEWINDOWS": 1, "SHARDDEPTH": 4}, "thorough": {"PAUSE": 1, "PAUSEHITS": 3, "PAUSEWINDOWS": 1, "SHARDDEPTH": 4}},
+                                         budget={"quick": 60, "thorough": 600}))
 SPECS["C04"]["parts"].append(_request_path(False))
 
 # owned selects (DESIGN 9.17) also in the plain E3 explorations of the scenarios that install the select hook: overlay copies that carry
